@@ -1,5 +1,5 @@
 import CollectionsC.Properties.C01Sized
-import CollectionsC.Proofs.ArraySized8
+import CollectionsC.Proofs.ArraySizedGeometric
 /-! # C20 (sized array part) — growth is geometric and the capacity invariants always hold
 
 Statements only.  `Inv` is preserved by every call (`C01Sized.C01_sized`), so its conjuncts hold in
@@ -52,12 +52,35 @@ appending any `n` records to an array holding `size` records — under any refus
 at most `log2 (size + n) + 1` successful allocator calls (counted on the array's own triple), whatever the initial capacity ≥ 1.
 The hypothesis is satisfiable (`grow := fun c => 2 * c`, see the `example`s below); beyond the size
 limit the model refuses with `CC_ERR_MAX_CAPACITY` without allocating, so the bound still holds.
-Open: expansion factors in (1, 2) and the `capacity + 1` fallback are not covered by this theorem
-(measured by the correspondence only). -/
+Expansion factors in (1, 2) and the `capacity + 1` fallback are covered by
+`appends_realloc_geometric` below. -/
 theorem appends_realloc_log (a : ArraySized) (xs : List (Buf Nat)) (m : Mem) (h : a.Inv)
     (hx : ∀ x ∈ xs, x.length = a.dataLen) (hd : ∀ c, 2 * c ≤ a.grow c) :
     cnt (a.addAll xs m).2 a.triple - cnt m a.triple ≤ Nat.log2 (a.size + xs.length) + 1 :=
   addAll_realloc_log a xs m h hx hd
+
+/-- **appends_realloc_geometric**: every expansion factor `≥ 1 + 1/k` — a growth function that
+multiplies every capacity below the final size by at least that much (`c + c / k ≤ grow c`; `k = 2`
+for the factor 1.5, `k = 4` for 1.25, `k = 10` for 1.1), falling back to `capacity + 1` where the
+product makes no progress — costs at most `2k · (log2 (size + n) + 2)` successful allocator calls on
+`n` appends, for every refusal schedule and either allocator triple (below 2^63 records) -/
+theorem appends_realloc_geometric (k : Nat) (hk : 1 ≤ k) (a : ArraySized) (xs : List (Buf Nat)) (m : Mem)
+    (h : a.Inv) (hx : ∀ x ∈ xs, x.length = a.dataLen) (hl : a.size + xs.length ≤ CC_MAX_ELEMENTS / 2)
+    (hd : ∀ c, c < a.size + xs.length → c + c / k ≤ a.grow c) :
+    cnt (a.addAll xs m).2 a.triple - cnt m a.triple ≤ 2 * k * (Nat.log2 (a.size + xs.length) + 2) :=
+  addAll_realloc_geometric k hk a xs m h hx hl hd
+
+/-- the successive capacities are the iterates of `capStep grow` (the product, or `capacity + 1`),
+one per successful allocation, each step taken at a capacity below `size + n` — for **every** growth
+function and refusal schedule -/
+theorem appends_capacity_chain (a : ArraySized) (xs : List (Buf Nat)) (m : Mem) (h : a.Inv)
+    (hx : ∀ x ∈ xs, x.length = a.dataLen) (hl : a.size + xs.length ≤ CC_MAX_ELEMENTS / 2) :
+    ∃ r, cnt (a.addAll xs m).2 a.triple = cnt m a.triple + r ∧
+      (a.addAll xs m).1.capacity = capIter (capStep a.grow) r a.capacity ∧
+      (∀ j, j < r → capIter (capStep a.grow) j a.capacity < a.size + xs.length) ∧
+      (a.addAll xs m).1.size ≤ (a.addAll xs m).1.capacity := by
+  obtain ⟨r, h1, h2, h3, h4⟩ := addAll_chain xs a m h hx hl
+  exact ⟨r, h1, h2, h3, h4.2.2.1⟩
 
 /-- the capacity process behind it: under doubling, `k ≥ 1` re-allocations during `n` appends force
 `2^(k-1) * capacity ≤ size + n - 1` (the same potential as `CC.Growth.appends_spec`) -/
@@ -83,5 +106,19 @@ example :
     let a : ArraySized := { dataLen := 1, size := 1, capacity := 1, grow := fun c => 2 * c, buf := [7] }
     a.Inv ∧ (a.addAll [[1], [2], [3], [4], [5]] { live := 2 }).2.nalloc = 3 ∧
     (a.addAll [[1], [2], [3], [4], [5]] { live := 2 }).1.capacity = 8 := by decide
+
+/-! Non-vacuity of the geometric hypothesis: the factor 1.5 as `fun c => c + c / 2` (`k = 2`), also in
+its C shape `c * 3 / 2`; the factor 1.1 (`k = 10`); the whole bundle on a concrete state, where five
+appends from capacity 1 re-allocate four times (1 → 2 → 3 → 4 → 6; the first step is the `+ 1`
+fallback, `1 + 1/2 = 1`), within the bound `2·2·(log2 6 + 2) = 16`. -/
+example : ∀ c, c + c / 2 ≤ (fun c => c + c / 2) c := fun _ => Nat.le_refl _
+example : ∀ c, c + c / 2 ≤ (fun c => c * 3 / 2) c := by intro c; simp only; omega
+example : ∀ c, c + c / 10 ≤ (fun c => c * 11 / 10) c := by intro c; simp only; omega
+example :
+    let a : ArraySized := { dataLen := 1, size := 1, capacity := 1, grow := fun c => c + c / 2, buf := [7] }
+    a.Inv ∧ a.size + 5 ≤ CC_MAX_ELEMENTS / 2 ∧ (∀ c, c < a.size + 5 → c + c / 2 ≤ a.grow c) ∧
+    (a.addAll [[1], [2], [3], [4], [5]] { live := 2 }).2.nalloc = 4 ∧
+    (a.addAll [[1], [2], [3], [4], [5]] { live := 2 }).1.capacity = 6 := by
+  refine ⟨by decide, by decide, fun c _ => Nat.le_refl _, by decide, by decide⟩
 
 end CC.Properties.C20Sized
